@@ -80,7 +80,6 @@ func body(c *kernel.Ctx) {
 	syncMsgs := verifrt.Intn("cfg", 2) == 1
 	nextEpoch := eth2p0.Epoch(cfg.StartSlot/cfg.SlotsPerEpoch + 1)
 	cl.Chain.Forks = []simbeacon.Fork{{Epoch: nextEpoch, Version: eth2p0.Version{0x00, 0x00, 0x10, 0x21}}}
-	c.Set("sync_messages", syncMsgs)
 	// further duty kinds (tape value 0 = off): Electra-format attestations; the proposer pipeline
 	// (randao, then the block) for one validator in one slot of the run, in a third of the runs
 	pl := &plan{served: map[eth2p0.Root]string{}}
@@ -97,6 +96,10 @@ func body(c *kernel.Ctx) {
 	} else {
 		verifrt.Probe("enabled:att-deneb")
 	}
+	// the aggregation pipelines (aggregator; sync contribution, which switches sync messages on)
+	chooseAggKinds(cl, pl, cfg.StartSlot, nSlots, &syncMsgs)
+	c.Set("sync_messages", syncMsgs)
+	aggKindsSummary(c, pl)
 	cur = pl
 	installBeacon(cl, pl, beaconErrs)
 	c.Set("attestation_format", map[bool]string{false: "deneb", true: "electra"}[pl.electra])
@@ -213,6 +216,7 @@ func body(c *kernel.Ctx) {
 						wg.Add(1)
 						verifrt.GoNode(cl.Nodes[me].Tag, func() { defer wg.Done(); proposerAt(ctx, cl, me, false) })
 					}
+					startAggKinds(ctx, cl, me, false)
 					for s := 0; s < nSlots; s++ {
 						slot := firstSlot + uint64(s)
 						if time.Now().Before(cl.SlotStart(slot).Add(cfg.SlotDuration / 3)) {
@@ -239,6 +243,7 @@ func runNode(ctx context.Context, c *kernel.Ctx, cl *cluster.Cluster, i int, fir
 		wg.Add(1)
 		verifrt.GoNode(n.Tag, func() { defer wg.Done(); proposerAt(ctx, cl, i, byz) })
 	}
+	startAggKinds(ctx, cl, i, byz)
 	for s := 0; s < nSlots; s++ {
 		slot := firstSlot + uint64(s)
 		n := cl.Nodes[i]
@@ -445,6 +450,9 @@ func (o *oracle) onBroadcast(b cluster.Broadcast) {
 		o.onProposal(b, key, d)
 		return
 	}
+	if o.onAggKinds(b, key) {
+		return
+	}
 	att, ok := b.Data.(core.VersionedAttestation)
 	if !ok {
 		c.Violate("C01", "broadcast-type", "unexpected-signed-data-type", "node %d broadcast %T for %s", b.Node, b.Data, key)
@@ -582,6 +590,7 @@ func (o *oracle) final() {
 	if cur.proposer {
 		total += 2 // randao and block of the proposing validator
 	}
+	total += aggKindsTotal(o.cl, cur)
 	o.c.Set("pairs_total", total)
 	if len(o.roots) == total {
 		verifrt.Probe("all-duties-completed")
@@ -589,6 +598,12 @@ func (o *oracle) final() {
 	for _, kind := range []string{"att-deneb", "att-electra", "randao", "proposer"} {
 		if o.done[kind] {
 			verifrt.Probe("completed:" + kind)
+		}
+	}
+	// the aggregation pipelines: at least one object of the kind reached a broadcaster (and passed the oracles' type checks)
+	for _, kind := range []string{"prepare_aggregator", "aggregator", "prepare_sync_contribution", "sync_contribution"} {
+		if o.done[kind] {
+			verifrt.Probe("bcast:" + kind)
 		}
 	}
 }
